@@ -1513,6 +1513,10 @@ func (l *lexer) linebreak() bool {
 			l.mark(0)
 		case '#':
 			// comment
+			if hash {
+				l.b.WriteRune(r)
+				break
+			}
 			hash = true
 			l.mark(-1)
 		default:
